@@ -544,4 +544,158 @@ def rule_spec(ctx) -> RuleResult:
     return res
 
 
-RULES = [rule_w1, rule_w2, rule_w3, rule_w4, rule_spec]
+MUTATING_METHODS = {"sort", "fill", "put", "resize", "itemset", "update", "pop", "clear", "setdefault", "append", "extend", "remove", "insert"}
+
+
+def rule_inplace(ctx) -> RuleResult:
+    res = RuleResult(
+        "C03.INPLACE",
+        "C03",
+        "library code never edits, in place, the object handed out by the getter of a persisted array / value attribute "
+        "(values, vertices, cells, metadata, ... — the writer's value and array routes) without storing it back through "
+        "the setter (or update_attribute) on every normal path: the getter returns the cached object, so an in-place edit "
+        "changes memory only and the file keeps the old content",
+        floor=3,
+    )
+    p = ctx.p
+    t = engine(ctx).t
+    # attributes whose persistence is deferred by design (flushed by the concatenator's save path: C04.DEFER decides those)
+    routes = (set(t.value_routes) | set(t.array_routes)) - {f.lstrip("_") for f in DEFERRED_FIELDS}
+    from ..cfg import CFG
+    from ..kinds import reach
+
+    for fn in p.all_functions():
+        reads = [n for n in ast.walk(fn.node) if isinstance(n, ast.Attribute) and n.attr in routes and isinstance(n.ctx, ast.Load)]
+        if not reads:
+            continue
+        # aliases: name = <recv>.<route> (the getter's own object, no copy)
+        alias = {}
+        for n in ast.walk(fn.node):
+            if isinstance(n, ast.Assign) and len(n.targets) == 1 and isinstance(n.targets[0], ast.Name):
+                v = n.value
+                # a part of the getter's object: <recv>.<route>[k] / <recv>.<route>.get(k, ...)
+                while True:
+                    if isinstance(v, ast.Subscript):
+                        v = v.value
+                    elif isinstance(v, ast.Call) and isinstance(v.func, ast.Attribute) and v.func.attr in ("get", "setdefault"):
+                        v = v.func.value
+                    else:
+                        break
+                if isinstance(v, ast.Attribute) and v.attr in routes and isinstance(v.ctx, ast.Load):
+                    alias.setdefault(n.targets[0].id, []).append((unparse(v.value), v.attr, n.lineno))
+        rebound = {}
+        for n in ast.walk(fn.node):
+            if isinstance(n, ast.Assign):
+                for tg in n.targets:
+                    if isinstance(tg, ast.Name) and tg.id in alias and not any(a[2] == n.lineno for a in alias[tg.id]):
+                        rebound.setdefault(tg.id, []).append(n.lineno)
+
+        def target_of(base, lineno):
+            """(receiver text, route) if `base` denotes a getter's object."""
+            while isinstance(base, ast.Call) and isinstance(base.func, ast.Attribute) and base.func.attr in ("get", "setdefault"):
+                base = base.func.value
+                while isinstance(base, ast.Subscript):
+                    base = base.value
+            if isinstance(base, ast.Attribute) and base.attr in routes:
+                return unparse(base.value), base.attr
+            if isinstance(base, ast.Name) and base.id in alias:
+                cands = [a for a in alias[base.id] if a[2] < lineno]
+                if not cands:
+                    return None
+                a = max(cands, key=lambda x: x[2])
+                if any(a[2] < rb < lineno for rb in rebound.get(base.id, [])):
+                    return None
+                return a[0], a[1]
+            return None
+
+        g = None
+        for st in ast.walk(fn.node):
+            muts = []
+            if isinstance(st, (ast.Assign, ast.AugAssign)):
+                tgs = st.targets if isinstance(st, ast.Assign) else [st.target]
+                for tg in tgs:
+                    if isinstance(tg, ast.Subscript):
+                        b = tg.value
+                        while isinstance(b, ast.Subscript):
+                            b = b.value
+                        tt = target_of(b, st.lineno)
+                        if tt:
+                            muts.append((tt, unparse(tg)[:40]))
+                    elif isinstance(st, ast.AugAssign) and isinstance(tg, ast.Name):
+                        tt = target_of(tg, st.lineno)
+                        if tt:
+                            muts.append((tt, unparse(st)[:40]))
+            elif isinstance(st, ast.Delete):
+                for tg in st.targets:
+                    if isinstance(tg, ast.Subscript):
+                        b = tg.value
+                        while isinstance(b, ast.Subscript):
+                            b = b.value
+                        tt = target_of(b, st.lineno)
+                        if tt:
+                            muts.append((tt, unparse(st)[:40]))
+            elif isinstance(st, ast.Expr) and isinstance(st.value, ast.Call) and isinstance(st.value.func, ast.Attribute) \
+                    and st.value.func.attr in MUTATING_METHODS:
+                b = st.value.func.value
+                while isinstance(b, ast.Subscript):
+                    b = b.value
+                tt = target_of(b, st.lineno)
+                if tt:
+                    muts.append((tt, unparse(st.value)[:40]))
+            for (recv, route), text in muts:
+                if fn.kind in ("getter", "setter") and fn.prop == route and recv == (fn.self_name or "self"):
+                    continue  # the accessor builds / normalises its own value
+                if g is None:
+                    g = CFG(fn.node)
+
+                def stores(n, recv=recv, route=route):
+                    a = n.ast
+                    if a is None or isinstance(a, list):
+                        return False
+                    for x in ast.walk(a) if not isinstance(a, (ast.If, ast.For, ast.While, ast.With, ast.Try)) else []:
+                        if isinstance(x, ast.Assign) and any(isinstance(tg, ast.Attribute) and tg.attr == route and unparse(tg.value) == recv for tg in x.targets):
+                            return True
+                        if isinstance(x, ast.Call) and isinstance(x.func, ast.Attribute) and x.func.attr in ("update_attribute", "save_attribute", "save_entity") and x.args \
+                                and (unparse(x.args[0]) == recv or x.func.attr == "save_attribute"):
+                            return True
+                    return False
+
+                nodes = [n for n in g.nodes if n.stmt is st or n.ast is st]
+                if not nodes:
+                    continue
+                ok = all(g.exit not in reach(g, [m for m, _ in n.succ], avoid=stores) for n in nodes)
+                if not ok and fn.cls is not None and recv == (fn.self_name or "self"):
+                    # a helper: every caller in the class family stores the attribute back after the call
+                    callers = []
+                    for other in p.all_functions():
+                        if other.cls is None or other is fn or not (fn.cls in other.cls.mro or other.cls in fn.cls.mro):
+                            continue
+                        sn = other.self_name or "self"
+                        calls = [c for c in ast.walk(other.node) if isinstance(c, ast.Call) and isinstance(c.func, ast.Attribute)
+                                 and c.func.attr == fn.name and unparse(c.func.value) == sn]
+                        if not calls:
+                            continue
+                        g2 = CFG(other.node)
+
+                        def stores2(n, sn=sn, route=route):
+                            a = n.ast
+                            if a is None or isinstance(a, (list, ast.If, ast.For, ast.While, ast.With, ast.Try)):
+                                return False
+                            return any(isinstance(x, ast.Assign) and any(isinstance(tg, ast.Attribute) and tg.attr == route and unparse(tg.value) == sn for tg in x.targets)
+                                       for x in ast.walk(a))
+
+                        for c in calls:
+                            cn = [n for n in g2.nodes if n.ast is not None and not isinstance(n.ast, list) and n.kind not in ("entry", "exit", "rexit")
+                                  and not isinstance(n.ast, (ast.For, ast.While, ast.With, ast.Try)) and any(x is c for x in ast.walk(n.ast if not isinstance(n.ast, ast.If) else n.ast.test))]
+                            callers.append(bool(cn) and all(g2.exit not in reach(g2, [m for m, _ in n.succ], avoid=stores2) for n in cn))
+                    ok = bool(callers) and all(callers)
+                res.inst(f"{fn.qualname}:{st.lineno} in-place edit of {recv}.{route} ({text})", nontrivial=True, ok=ok)
+                if not ok:
+                    res.find(fn.cls.name if fn.cls else fn.module.short, fn.name, f"in-place edit of {recv}.{route} is not stored back ({text})",
+                             f"{fn.module.relpath}:{st.lineno}",
+                             f"`{text}` edits the object returned by the {route} getter; no `{recv}.{route} = ...` / update_attribute follows on "
+                             "every path, so the change stays in memory and is lost on reload")
+    return res
+
+
+RULES = [rule_w1, rule_w2, rule_w3, rule_w4, rule_spec, rule_inplace]
